@@ -1,7 +1,7 @@
 """C02 Map lanes: every subscriber's replica converges to the lane's map."""
 from mirlib import AnchorMissing, describe_call, describe_operand, describe_place, describe_rvalue, dom_guards, guards, decision_paths, _suffix_match
 from rules import uplinks
-from rules.common import guards_with_sources, aggregates, callers_by_name, crate_aggregates, owner_def, where
+from rules.common import guards_with_sources, success_edge, aggregates, callers_by_name, crate_aggregates, owner_def, where
 
 META = {
     "explanation": (
@@ -245,8 +245,8 @@ def run(ctx):
             r.check(_suffix_match(own, RK), "ReconKey/ctor/" + owner_def(b).split("::")[-1], b.loc(a[3]), "constructed inside impl ReconKey conversions", "ReconKey literal built in %s" % b.defpath)
             if "Bytes" in b.defpath and "TryFrom" in b.defpath:
                 chk = [c for c in b.calls if c.name == "from_utf8"]
-                te = b.try_edges(chk[0]) if chk else None
-                r.check(te is not None and b.dominates(te[0], a[0]), "ReconKey/TryFrom<Bytes>/validated", b.loc(a[3]), "std::str::from_utf8(..)? dominates the construction (makes from_utf8_unchecked sound)",
+                se_ = success_edge(b, chk[0], "Ok") if chk else None
+                r.check(se_ is not None and (b.dominates(se_, a[0]) or se_ == a[0]), "ReconKey/TryFrom<Bytes>/validated", b.loc(a[3]), "std::str::from_utf8(..)? dominates the construction (makes from_utf8_unchecked sound)",
                         "ReconKey built from bytes without UTF-8 validation")
         if n == 0:
             raise AnchorMissing("no ReconKey construction found")
